@@ -4,6 +4,7 @@ import (
 	"context"
 	"encoding/json"
 	"fmt"
+	"hash/fnv"
 	"os"
 	"reflect"
 	"sort"
@@ -604,13 +605,15 @@ func runBehaviour(b *behaviour, rep *vfutil.Report) (fd *finding, at int) {
 func shape(b *behaviour) string {
 	var sb strings.Builder
 	for _, s := range b.Steps {
-		a := s.Act
-		if a.A == "Pad" {
+		if s.Act.A == "Pad" {
 			continue
 		}
-		fmt.Fprintf(&sb, "%s%d%s;", a.A, a.Sid, a.Res)
+		j, _ := json.Marshal(s.Act)
+		sb.Write(j)
 	}
-	return sb.String()
+	h := fnv.New64a()
+	h.Write([]byte(sb.String()))
+	return fmt.Sprintf("%x", h.Sum64())
 }
 
 func report(rep *vfutil.Report, b *behaviour, fd *finding, at int, t *testing.T) {
@@ -646,10 +649,15 @@ func TestReplay(t *testing.T) {
 		}
 		bs = []behaviour{b}
 	} else {
-		var err error
-		bs, err = vfutil.LoadJSONFiles[behaviour](os.Getenv("VERIF_BEHAVIOURS"))
-		if err != nil {
-			t.Fatal(err)
+		for _, dir := range strings.Split(os.Getenv("VERIF_BEHAVIOURS"), ":") {
+			if dir == "" {
+				continue
+			}
+			part, err := vfutil.LoadJSONFiles[behaviour](dir)
+			if err != nil {
+				t.Fatal(err)
+			}
+			bs = append(bs, part...)
 		}
 	}
 	if len(bs) == 0 {
